@@ -129,15 +129,28 @@ Theorem C10_required_cycle_refuted :
 Proof. exact required_cycle_refuted. Qed.
 Print Assumptions C10_required_cycle_refuted.
 
-(* "a value in the shape of its descriptor" does NOT include "strings are UTF-8" (finding F-10b, reproduced on every run):
-   the module selected for a declared `string` is faststr, whose merge is merge_one_copy + FastStr::from_bytes_unchecked; the
-   bytes ff fe decode to Ok there (and in a generated message), std String's module rejects them *)
-Theorem C10_faststr_accepts_invalid_utf8 :
+(* finding F-10b REPAIRED (pilota f4282b1: faststr::merge = merge_one_copy + the checked FastStr::from_bytes; before it the
+   bytes went through from_bytes_unchecked and ff fe decoded to Ok): the module selected for a declared `string` has, on every
+   wire type and every input, the outcome of string::merge ... *)
+Theorem C10_faststr_validates_repaired :
+  faststr_validates = true (* regenerated: the body of faststr::merge is merge_one_copy + checked from_bytes, nothing else *) /\
+  forall wt s, merge_scalar MFastStr wt s = merge_scalar MString wt s.
+Proof. exact faststr_merge_is_string_merge. Qed.
+Print Assumptions C10_faststr_validates_repaired.
+
+(* ... so whatever the bytes, a decoded generated `string` (FastStr) or String holds valid UTF-8 *)
+Theorem C10_decoded_string_utf8 : forall m wt s v s', m = MFastStr \/ m = MString ->
+  merge_scalar m wt s = OOk v s' -> utf8_valid (vbytes v) = true.
+Proof. exact decoded_string_utf8. Qed.
+Print Assumptions C10_decoded_string_utf8.
+
+(* the witness of the finding is rejected now, by the module and by a generated message; valid UTF-8 is accepted *)
+Theorem C10_faststr_rejects_invalid_utf8 :
   scalar_module TYPE_STRING = Some MFastStr /\
   utf8_valid [xff; xfe] = false /\
-  (exists s, merge_scalar MFastStr LengthDelimited (mkR [x02; xff; xfe] 0) = OOk (VB [xff; xfe]) s) /\
-  (exists s, merge_scalar MString LengthDelimited (mkR [x02; xff; xfe] 0) = OErr PUtf8 s) /\
-  (exists s, msg_decode [[FOptional 1 (TScalar TYPE_STRING)]] 0 (mkR [x0a; x02; xff; xfe] 0)
-             = OOk (VL NMsg [VL NSome [VB [xff; xfe]]]) s).
-Proof. exact faststr_accepts_invalid_utf8. Qed.
-Print Assumptions C10_faststr_accepts_invalid_utf8.
+  (exists s, merge_scalar MFastStr LengthDelimited (mkR [x02; xff; xfe] 0) = OErr PUtf8 s) /\
+  (exists s, msg_decode [[FOptional 1 (TScalar TYPE_STRING)]] 0 (mkR [x0a; x02; xff; xfe] 0) = OErr PUtf8 s) /\
+  (exists s, msg_decode [[FOptional 1 (TScalar TYPE_STRING)]] 0 (mkR [x0a; x02; xc3; xa9] 0)
+             = OOk (VL NMsg [VL NSome [VB [xc3; xa9]]]) s).
+Proof. exact faststr_rejects_invalid_utf8. Qed.
+Print Assumptions C10_faststr_rejects_invalid_utf8.
